@@ -485,6 +485,11 @@ impl Include {
     pub(crate) fn path(&self) -> &Token {
         self.find_token(Kind::Path).unwrap()
     }
+
+    /// `false` for a malformed statement like `include;` (the parser has already reported it)
+    pub(crate) fn has_path(&self) -> bool {
+        self.find_token(Kind::Path).is_some()
+    }
 }
 
 impl Tag {
